@@ -404,8 +404,16 @@ def r3_degenerate_guards(ctx):
                 continue
             n_red += 1
             conds = conditions_at(c)
-            ok = any(".size" in a.text or "len(" in a.text for a in conds
-                     if any(dn in a.text for dn in derived))
+
+            def rt_(a):
+                # (`size = y.size` ... `if size > 1`)
+                try:
+                    return Resolver(f, keep=set(derived)).text(a.node)
+                except Exception:
+                    return a.text
+            ok = any(".size" in t_ or "len(" in t_
+                     for t_ in (rt_(a) for a in conds)
+                     if any(dn in t_ for dn in derived))
             if not ok and unguarded is None:
                 unguarded = c
         # np.gradient needs two samples of exactly the array it is given
@@ -417,8 +425,10 @@ def r3_degenerate_guards(ctx):
             n_red += 1
             if isinstance(a0, ast.Name) and a0.id in derived:
                 conds = conditions_at(c)
-                ok = any((f"{a0.id}.size" in a.text or f"len({a0.id})" in
-                          a.text) for a in conds)
+                ok = any((f"{a0.id}.size" in t_ or f"len({a0.id})" in t_)
+                         for t_ in [a.text for a in conds] + [
+                             Resolver(f, keep=set(derived)).text(a.node)
+                             for a in conds])
             elif isinstance(a0, ast.Subscript) and isinstance(
                     a0.slice, ast.Slice):
                 ok = False     # a fresh, shorter array nobody tested
